@@ -29,6 +29,7 @@ META = {
     "self-helper calls) described in sa/traversal.py; carrier classes (Filter, arguments, parameters) are treated as "
     "transparent containers of expressions.",
 }
+META["technique"] += '; loader twins (analysis loads the same sources on both paths); filtered comprehensions in expressions()/children()'
 
 EXPR_USE = {"evaluate", "evaluate_async", "map", "evaluate_args", "evaluate_args_async"}
 NODE_USE = {"evaluate", "evaluate_async", "render", "render_async", "map"}
@@ -469,6 +470,10 @@ def run(prog: Program, res: Result) -> None:  # noqa: PLR0912, PLR0915
     from checks.shared import check_unconditional_contributions
 
     check_unconditional_contributions(prog, res, "C11.R9")
+    res.rule("C11.R11", "analyze_async() sees the templates analyze() sees: every loader's get_source_async / load_async equals its sync twin modulo await (arguments such as `tag=` and `context=` forwarded alike), so partials and parents resolve to the same source on both paths (= C13.R4)")
+    from checks.shared import check_loader_twins
+
+    check_loader_twins(prog, res, "C11.R11")
 
     # ------------------------------------------------------------------ R8 attributes of an expression evaluated by another class
     res.rule("C11.R8", "an attribute of an Expression object that some other class evaluates (`<x>.<attr>.evaluate[_async](…)` with <x> declared as that Expression class) is contributed by that class's children(): what a tag evaluates through a helper expression is visible to the analyser")
